@@ -2,6 +2,6 @@ SPECIFICATION Spec
 CONSTANTS
   Mutation = "none"
   NilDictIsNull = TRUE
-  WriterAddsLength = FALSE
-  WriterEscapesKeys = FALSE
+  WriterAddsLength = TRUE
+  WriterEscapesKeys = TRUE
 CHECK_DEADLOCK FALSE
